@@ -200,6 +200,14 @@ func defaultBody(p *Project, c *Controller, m *Method, imports map[string]bool) 
 }
 
 func renderTypeDecl(f *fileBuilder, t *TypeDecl) {
+	for _, imp := range t.Imports {
+		f.imports[imp] = true
+	}
+	if t.Kind == "raw" {
+		f.add(strings.Split(t.Raw, "\n")...)
+		f.add("")
+		return
+	}
 	if t.Desc != "" {
 		f.add("// " + t.Desc)
 	}
@@ -210,6 +218,10 @@ func renderTypeDecl(f *fileBuilder, t *TypeDecl) {
 			f.add("\terror")
 		}
 		for _, fl := range t.Fields {
+			if fl.Raw != "" {
+				f.add("\t" + fl.Raw)
+				continue
+			}
 			if fl.Desc != "" {
 				f.add("\t// " + fl.Desc)
 			}
@@ -322,6 +334,9 @@ func (p *Project) Render(opts RenderOptions) (map[string]string, *Layout) {
 		}
 		if c.Deprecated {
 			doc = append(doc, "// @Deprecated")
+		}
+		if c.RawDoc != nil {
+			doc = c.RawDoc
 		}
 		indent := ""
 		if c.Grouped {
